@@ -9,4 +9,5 @@ CHECK_DEADLOCK FALSE
 INVARIANT LabelsOK
 INVARIANT AscendingOK
 INVARIANT EveryIdOnce
+INVARIANT LawsNormalised
 INVARIANT Emit
